@@ -1363,7 +1363,70 @@ func (p *prover) collectEdge(q ssa.Instruction, to *ssa.BasicBlock) *collector {
 	for _, c := range conds {
 		cl.addCond(c.V, c.Truth, 0)
 	}
+	// exit guards with several conjuncts, not(c1 && ... && ck): when all but one conjunct follow
+	// from the facts gathered so far, the remaining one is false
+	for _, g := range exitGuardsCached(q.Parent()) {
+		if len(g.Conj) < 2 || !g.Head.Dominates(q.Block()) || g.Exit.Dominates(q.Block()) || g.Head == q.Block() {
+			continue
+		}
+		unknown, n := -1, 0
+		for i, cj := range g.Conj {
+			if cl.entails(cj.V, cj.Truth) {
+				continue
+			}
+			unknown = i
+			n++
+		}
+		if n == 1 {
+			cl.addCond(g.Conj[unknown].V, !g.Conj[unknown].Truth, 0)
+		}
+	}
 	return cl
+}
+
+// entails: the integer comparison v (or its negation) follows from the facts gathered so far.
+func (cl *collector) entails(v ssa.Value, truth bool) bool {
+	v = origin(v)
+	if u, ok := v.(*ssa.UnOp); ok && u.Op == token.NOT {
+		return cl.entails(u.X, !truth)
+	}
+	b, ok := v.(*ssa.BinOp)
+	if !ok || !isIntType(b.X.Type()) || !isIntType(b.Y.Type()) {
+		return false
+	}
+	op := b.Op
+	if !truth {
+		switch op {
+		case token.LSS:
+			op = token.GEQ
+		case token.LEQ:
+			op = token.GTR
+		case token.GTR:
+			op = token.LEQ
+		case token.GEQ:
+			op = token.LSS
+		default:
+			return false
+		}
+	}
+	cl.define(b.X, 1)
+	cl.define(b.Y, 1)
+	cl.f.close()
+	if cl.f.inconsistent() {
+		return false
+	}
+	x, y := cl.p.intTerm(b.X, cl.q), cl.p.intTerm(b.Y, cl.q)
+	switch op {
+	case token.LSS:
+		return cl.f.le(x, y, -1)
+	case token.LEQ:
+		return cl.f.le(x, y, 0)
+	case token.GTR:
+		return cl.f.le(y, x, -1)
+	case token.GEQ:
+		return cl.f.le(y, x, 0)
+	}
+	return false
 }
 
 var exitGuardCache = map[*ssa.Function][]NegConj{}
